@@ -192,6 +192,22 @@ fn c07_sorter_equals_sort_and_merge() {
                 return Ok(Cow::Owned(format!("WRONG-KEY: merge called for key {} with a value of another key ({}...)", hex(key), String::from_utf8_lossy(&part[..part.len().min(24)])).into_bytes())); } } }
             let mut out = vec![]; for (i, v) in values.iter().enumerate() { if i > 0 { out.push(b'|'); } out.extend_from_slice(v); }
             Ok(Cow::Owned(out)) } }
+    // configuration corners: the largest possible budget ("never spill") and chunk maximum ("never merge"), the smallest ones
+    for (threshold, realloc, max_chunks) in [(usize::MAX, true, usize::MAX), (usize::MAX, true, 1), (0usize, false, usize::MAX), (1, true, 0)] {
+        let inserts: Vec<(Vec<u8>, Vec<u8>)> = (0..400u32).map(|i| (((i * 7) % 50).to_be_bytes().to_vec(), token(i))).collect();
+        let mut want: BTreeMap<Vec<u8>, Vec<u8>> = BTreeMap::new();
+        for (k, v) in &inserts { want.entry(k.clone()).or_default().extend_from_slice(v); }
+        let want: Entries = want.into_iter().collect();
+        for route in 0..3 {
+            let sc = SorterCfg { threshold, realloc, max_chunks, algo: SortAlgorithm::Stable, par: false, ct: grenad::CompressionType::None, levels: 1, block: 1024, interval: 2 };
+            let got = match std::panic::catch_unwind(std::panic::AssertUnwindSafe(|| run_sorter(&sc, &inserts, route))) {
+                Err(p) => { let m = p.downcast_ref::<String>().cloned().or_else(|| p.downcast_ref::<&str>().map(|s| s.to_string())).unwrap_or_default();
+                    cex(format!("C07 sorter panicked: `{}` -- input: 400 small inserts, dump_threshold({}) allow_realloc({}) max_nb_chunks({}), route {}", m, threshold, realloc, max_chunks, route)) }
+                Ok(r) => r.unwrap_or_else(|e| cex(format!("C07 sorter failed: {} (dump_threshold({}) allow_realloc({}) max_nb_chunks({}) route {})", e, threshold, realloc, max_chunks, route))) };
+            if got != want { cex(format!("C07 output differs for dump_threshold({}) allow_realloc({}) max_nb_chunks({}) route {}: {} keys vs {}", threshold, realloc, max_chunks, route, got.len(), want.len())); }
+            runs += 1;
+        }
+    }
     let kkeys: Vec<Vec<u8>> = vec![vec![], b"a".to_vec(), b"a\0".to_vec(), b"ab".to_vec(), b"b".to_vec(), vec![0xff], vec![0xff, 0xff], b"filler".to_vec()];
     for (max_chunks, par) in [(1usize, false), (2, true), (25, false)] {
         let mut inserts: Vec<(Vec<u8>, Vec<u8>)> = vec![];
